@@ -326,3 +326,214 @@ Proof.
     pose proof (pow2_pos (w - 2 - k) ltac:(lia)). rewrite pow2_succ by lia. nia.
   - apply sv_unsigned_small. rewrite EM. nia.
 Qed.
+
+(* ---------------------------------------------------------------- TruncateMPC (general divisor) *)
+Lemma sv_signed_range w x : 1 <= w -> - 2 ^ (w - 1) <= sv w true x < 2 ^ (w - 1).
+Proof.
+  intros Hw. unfold sv. cbn [andb]. pose proof (pow2_half w Hw) as HM.
+  pose proof (pow2_pos (w - 1) ltac:(lia)) as HH.
+  assert (Hr : 0 <= x mod 2 ^ w < 2 ^ w) by (apply Z.mod_pos_bound; lia).
+  set (y := x mod 2 ^ w) in *. clearbody y.
+  destruct (2 ^ (w - 1) <=? y) eqn:E; lia.
+Qed.
+
+Lemma sv_signed_cong w x : cong (2 ^ w) (sv w true x) x.
+Proof.
+  unfold sv. cbn [andb]. destruct (2 ^ (w - 1) <=? x mod 2 ^ w).
+  - apply cong_of_mod_eq. rewrite Zminus_mod, Z_mod_same_full, Z.sub_0_r, !Zmod_mod. reflexivity.
+  - apply cong_mod.
+Qed.
+
+Lemma quot_cases a s : 0 < s -> (0 <= a /\ Z.quot a s = a / s) \/ (a < 0 /\ Z.quot a s = - ((- a) / s)).
+Proof.
+  intros Hs. destruct (Z.lt_ge_cases a 0) as [N|P].
+  - right. split; [exact N|]. rewrite <- (Z.opp_involutive a) at 1. rewrite Z.quot_opp_l by lia.
+    rewrite Z.quot_div_nonneg by lia. reflexivity.
+  - left. split; [exact P|]. apply Z.quot_div_nonneg; lia.
+Qed.
+
+Lemma quot_sum_bound a b s : 1 < s ->
+  Z.abs (Z.quot a s + Z.quot b s - Z.quot (a + b) s) <= 1.
+Proof.
+  intros Hs.
+  destruct (quot_cases a s ltac:(lia)) as [[Ha ->]|[Ha ->]];
+  destruct (quot_cases b s ltac:(lia)) as [[Hb ->]|[Hb ->]];
+  destruct (quot_cases (a + b) s ltac:(lia)) as [[Hab ->]|[Hab ->]]; try lia.
+  all: nia.
+Qed.
+
+Lemma quot_abs_le a s : 0 < s -> Z.abs (Z.quot a s) <= Z.abs a.
+Proof.
+  intros Hs. destruct (quot_cases a s Hs) as [[Ha ->]|[Ha ->]].
+  - assert (0 <= a / s <= a); [|lia]. split; [apply Z.div_pos; lia|].
+    apply Z.div_le_upper_bound; [lia|]. nia.
+  - assert (0 <= (- a) / s <= - a); [|lia]. split; [apply Z.div_pos; lia|].
+    apply Z.div_le_upper_bound; [lia|]. nia.
+Qed.
+
+Lemma quot_half a s : 1 < s -> 2 * Z.abs (Z.quot a s) <= Z.abs a.
+Proof.
+  intros Hs. destruct (quot_cases a s ltac:(lia)) as [[Ha ->]|[Ha ->]].
+  - assert (0 <= a / s /\ 2 * (a / s) <= a); [|lia]. split; [apply Z.div_pos; lia|]. nia.
+  - assert (0 <= (- a) / s /\ 2 * ((- a) / s) <= - a); [|lia]. split; [apply Z.div_pos; lia|]. nia.
+Qed.
+
+(* TruncateMPC: the revealed result is the sum of the two share-wise quotients *)
+Lemma truncmpc_reveal_eq w scale x0 x1 x2 r :
+  reveal w (truncmpc w scale (x0, x1, x2) r)
+  = (Z.quot (sv w true x0) scale + Z.quot (sv w true (x1 + x2)) scale) mod 2 ^ w.
+Proof.
+  unfold truncmpc, reveal, truncate, addw, subw. rewrite sv_mod.
+  set (A := Z.quot (sv w true x0) scale). set (B := Z.quot (sv w true (x1 + x2)) scale).
+  clearbody A B. apply cong_intro. rewrite_strat (topdown cong_mod). apply cong_of_eq. ring.
+Qed.
+
+(* the documented wrap-around event of TruncateMPC (mpc_truncate.rs:18-25): the signed readings of the
+   two addends that are truncated separately do not add up to the signed reading of the input *)
+Theorem truncmpc_value_bound w scale x0 x1 x2 r x :
+  1 <= w -> 1 < scale ->
+  sv w true x0 + sv w true (x1 + x2) = sv w true x ->
+  Z.abs (sv w true (reveal w (truncmpc w scale (x0, x1, x2) r)) - Z.quot (sv w true x) scale) <= 1.
+Proof.
+  intros Hw Hs Hnw. rewrite truncmpc_reveal_eq, sv_mod.
+  pose proof (sv_signed_range w x0 Hw) as Ra. pose proof (sv_signed_range w (x1 + x2) Hw) as Rb.
+  pose proof (sv_signed_range w x Hw) as Rx.
+  pose proof (quot_sum_bound (sv w true x0) (sv w true (x1 + x2)) scale Hs) as Hq. rewrite Hnw in Hq.
+  pose proof (quot_half (sv w true x0) scale Hs) as Ha.
+  pose proof (quot_half (sv w true (x1 + x2)) scale Hs) as Hb.
+  set (a := sv w true x0) in *. set (b := sv w true (x1 + x2)) in *. set (X := sv w true x) in *.
+  set (qa := Z.quot a scale) in *. set (qb := Z.quot b scale) in *. set (qx := Z.quot X scale) in *.
+  pose proof (pow2_pos (w - 1) ltac:(lia)) as HH.
+  rewrite sv_signed_small; [exact Hq|exact Hw|].
+  clearbody qa qb qx a b X. set (H := 2 ^ (w - 1)) in *. clearbody H. lia.
+Qed.
+
+(* characterisation of the wrap-around event in terms of the first share *)
+Theorem truncmpc_wrap_iff w x0 x1 x2 x :
+  1 <= w -> (x0 + x1 + x2) mod 2 ^ w = x mod 2 ^ w ->
+  let a := sv w true x0 in let X := sv w true x in
+  a + sv w true (x1 + x2) <> X <->
+  (0 <= X /\ a <= X - 2 ^ (w - 1)) \/ (X < 0 /\ X + 2 ^ (w - 1) < a).
+Proof.
+  intros Hw Hs a X.
+  pose proof (sv_signed_range w x0 Hw) as Ra. pose proof (sv_signed_range w x Hw) as Rx.
+  pose proof (sv_signed_range w (x1 + x2) Hw) as Rb.
+  fold a in Ra. fold X in Rx.
+  (* b = X - a + j * 2^w for some integer j *)
+  assert (Hb : cong (2 ^ w) (sv w true (x1 + x2)) (X - a)).
+  { unfold X, a. rewrite !sv_signed_cong. apply cong_of_mod_eq in Hs. rewrite <- Hs. apply cong_of_eq. ring. }
+  apply cong_intro in Hb.
+  pose proof (pow2_half w Hw) as HM. pose proof (pow2_pos (w - 1) ltac:(lia)) as HH.
+  set (b := sv w true (x1 + x2)) in *. clearbody b a X. set (H := 2 ^ (w - 1)) in *. clearbody H.
+  rewrite HM in Hb.
+  assert (Hj : exists j, b = X - a + j * (2 * H)).
+  { exists ((b - (X - a)) / (2 * H)).
+    assert (E : (b - (X - a)) mod (2 * H) = 0).
+    { rewrite Zminus_mod, Hb, Z.sub_diag. apply Z.mod_0_l. lia. }
+    pose proof (Z.div_mod (b - (X - a)) (2 * H) ltac:(lia)) as D. rewrite E in D. lia. }
+  destruct Hj as [j Hj]. clear Hb.
+  assert (j = -1 \/ j = 0 \/ j = 1) by nia.
+  split; intros Hcase; nia.
+Qed.
+
+Lemma nodup_interval_length (l : list Z) lo n :
+  0 <= n -> NoDup l -> (forall z, In z l -> lo <= z < lo + n) -> Z.of_nat (length l) <= n.
+Proof.
+  intros Hn Hnd Hin.
+  set (l' := map (fun i => lo + Z.of_nat i) (seq 0 (Z.to_nat n))).
+  assert (Hincl : incl l l').
+  { intros z Hz. specialize (Hin z Hz). unfold l'. apply in_map_iff.
+    exists (Z.to_nat (z - lo)). split; [lia|]. apply in_seq. lia. }
+  pose proof (NoDup_incl_length Hnd Hincl) as Hlen.
+  unfold l' in Hlen. rewrite map_length, seq_length in Hlen. lia.
+Qed.
+
+(* at most |x|+1 of the 2^w possible first shares produce the wrap-around: with a uniformly random
+   first share its probability is at most (|x|+1)/2^w < 2^(l-w) for |x| < 2^l (mpc_truncate.rs:21-25) *)
+Theorem truncmpc_wrap_count w x (l : list Z) :
+  1 <= w -> NoDup l ->
+  (forall x0, In x0 l -> 0 <= x0 < 2 ^ w /\
+     sv w true x0 + sv w true (x - x0) <> sv w true x) ->
+  Z.of_nat (length l) <= Z.abs (sv w true x) + 1.
+Proof.
+  intros Hw Hnd Hl.
+  pose proof (pow2_half w Hw) as HM. pose proof (pow2_pos (w - 1) ltac:(lia)) as HH.
+  pose proof (sv_signed_range w x Hw) as Rx.
+  set (X := sv w true x) in *.
+  apply nodup_interval_length with (lo := if 0 <=? X then 2 ^ (w - 1) else X + 2 ^ (w - 1) + 1); [lia|exact Hnd|].
+  intros x0 Hin. destruct (Hl x0 Hin) as [Hr Hwrap].
+  assert (Hsh : (x0 + 0 + (x - x0)) mod 2 ^ w = x mod 2 ^ w) by (f_equal; ring).
+  pose proof (truncmpc_wrap_iff w x0 0 (x - x0) x Hw Hsh) as Hiff. cbv zeta in Hiff.
+  replace (0 + (x - x0)) with (x - x0) in Hiff by ring. fold X in Hiff.
+  apply Hiff in Hwrap. clear Hiff Hl Hsh.
+  (* sv x0 in terms of x0 *)
+  assert (Ha : sv w true x0 = if 2 ^ (w - 1) <=? x0 then x0 - 2 ^ w else x0).
+  { unfold sv. cbn [andb]. rewrite Z.mod_small by exact Hr. reflexivity. }
+  rewrite Ha in Hwrap. clear Ha. clearbody X. set (H := 2 ^ (w - 1)) in *. clearbody H.
+  rewrite HM in *. destruct (H <=? x0) eqn:E1; destruct (0 <=? X) eqn:E2; lia.
+Qed.
+
+(* ---------------------------------------------------------------- plaintext / public truncation *)
+(* plaintext Truncate is exact division: round toward zero on the signed reading, floor unsigned *)
+Lemma truncate_exact w sg scale x : 1 <= w -> 0 < scale ->
+  sv w sg (truncate w sg scale x) = if sg then Z.quot (sv w true x) scale else (x mod 2 ^ w) / scale.
+Proof.
+  intros Hw Hs. pose proof (pow2_pos w ltac:(lia)) as HM. unfold truncate. destruct sg.
+  - rewrite sv_mod. apply sv_signed_small; [exact Hw|].
+    pose proof (sv_signed_range w x Hw) as R. pose proof (quot_abs_le (sv w true x) scale Hs) as Q.
+    destruct (quot_cases (sv w true x) scale Hs) as [[Ha E]|[Ha E]]; rewrite E in *.
+    + assert (0 <= sv w true x / scale) by (apply Z.div_pos; lia). lia.
+    + assert (0 <= (- sv w true x) / scale) by (apply Z.div_pos; lia). lia.
+  - apply sv_unsigned_small. pose proof (Z.mod_pos_bound x (2 ^ w) HM) as R.
+    split; [apply Z.div_pos; lia|]. apply Z.le_lt_trans with (x mod 2 ^ w); [|lia].
+    apply Z.div_le_upper_bound; [lia|]. nia.
+Qed.
+
+Theorem trunc_public_exact w sg scale x y : 1 <= w -> 0 < scale ->
+  trunc_public w sg scale x = Ok y ->
+  sv w sg y = if sg then Z.quot (sv w true x) scale else (x mod 2 ^ w) / scale.
+Proof.
+  intros Hw Hs. unfold trunc_public. destruct (is_power_of_two scale) eqn:Ep.
+  - unfold is_power_of_two in Ep. apply andb_true_iff in Ep as [_ Ep]. apply Z.eqb_eq in Ep.
+    intros [= <-]. destruct (Z.log2 scale =? 0) eqn:E0.
+    + apply Z.eqb_eq in E0. rewrite E0 in Ep. change (2 ^ 0) with 1 in Ep. subst scale.
+      rewrite sv_mod. destruct sg; [rewrite Z.quot_1_r; reflexivity|].
+      rewrite Z.div_1_r. reflexivity.
+    + rewrite <- Ep. apply truncate_exact; assumption.
+  - destruct sg; cbn [negb]; [|discriminate]. intros [= <-]. exact (truncate_exact w true scale x Hw Hs).
+Qed.
+
+(* the only rejected public case: an unsigned type with a divisor that is not a power of two *)
+Theorem trunc_public_err_iff w sg scale x :
+  trunc_public w sg scale x = Err <-> is_power_of_two scale = false /\ sg = false.
+Proof.
+  unfold trunc_public. destruct (is_power_of_two scale), sg; cbn [negb]; split; intros H;
+    try discriminate; try (destruct H; discriminate); auto.
+Qed.
+
+(* ---------------------------------------------------------------- corollaries in the form of the property *)
+Corollary trunc2k_bound w sg k x0 x1 x2 m x :
+  trunc2k_admissible w sg k -> in_range2k w sg x ->
+  (x0 + x1 + x2) mod 2 ^ w = x mod 2 ^ w ->
+  let d := sv w sg (reveal w (trunc2k w sg k (x0, x1, x2) m)) - x / 2 ^ k in
+  d = 0 \/ d = 1.
+Proof.
+  intros Ha Hx Hs d. unfold d. rewrite (trunc2k_value w sg k x0 x1 x2 m x Ha Hx Hs).
+  unfold carry2k. destruct (2 ^ k <=? _); [right|left]; ring.
+Qed.
+
+Corollary trunc2k_exact_iff w sg k x0 x1 x2 m x :
+  trunc2k_admissible w sg k -> in_range2k w sg x ->
+  (x0 + x1 + x2) mod 2 ^ w = x mod 2 ^ w ->
+  let y := sv w sg (reveal w (trunc2k w sg k (x0, x1, x2) m)) in
+  (y = x / 2 ^ k <-> x mod 2 ^ k + mask_r m mod 2 ^ k < 2 ^ k) /\
+  (y = x / 2 ^ k + 1 <-> 2 ^ k <= x mod 2 ^ k + mask_r m mod 2 ^ k).
+Proof.
+  intros Ha Hx Hs y. unfold y. rewrite (trunc2k_value w sg k x0 x1 x2 m x Ha Hx Hs).
+  unfold carry2k. set (q := x / 2 ^ k). set (t := x mod 2 ^ k + mask_r m mod 2 ^ k). set (P := 2 ^ k).
+  clearbody q t P. destruct (P <=? t) eqn:E; lia.
+Qed.
+
+(* the width-indexed reading agrees with Base.Scalar.sval on every scalar type *)
+Lemma sv_sval st x : sv (width st) (signed st) x = sval st x.
+Proof. reflexivity. Qed.
